@@ -47,7 +47,18 @@ FORMS = {
              ('A', ('R', ('E', ('X', P)), Q)), ('E', N(('X', P)))],
 }
 
+class St(object):
+    """A state object that hashes and compares by identity (no __eq__ / __hash__ of its own)."""
+
+    def __init__(self, i):
+        self.i = i
+
+    def __repr__(self):
+        return 'St#%d@%x' % (self.i, id(self))
+
+
 NAMINGS = {
+    'objects': lambda i: St(i),
     'ints': lambda i: i,
     'strings': lambda i: 's%d' % i,
     'tuples': lambda i: (i, 'x'),
@@ -56,7 +67,7 @@ NAMINGS = {
     'formula-like': lambda i: ('p', 'not p', '(p U q)')[i],
     'big-ints': lambda i: (10 ** 12, -1, 17)[i],
 }
-PLAIN_NAMINGS = ('ints', 'strings', 'tuples', 'frozensets', 'mixed', 'big-ints')
+PLAIN_NAMINGS = ('ints', 'strings', 'tuples', 'frozensets', 'mixed', 'big-ints', 'objects')
 
 EXTRA_LABELS = {
     'plain': [],
@@ -96,7 +107,10 @@ def build_K(k, naming, scheme):
 def scope(tier, seed):
     return {'graphs': '%d (quick: the six 3-state structures and every other 1-2 state one, parity by '
             'seed)' % len(graphs()), 'namings': sorted(NAMINGS), 'label schemes': sorted(EXTRA_LABELS),
-            'formulas per checker': 12, 'F': ['None', '[set()]', '[{first state}]'],
+            'formulas per checker': 12,
+            'fresh-name collisions': 'CTL*: per formula the structure is labelled with exactly the fresh '
+                                     'atom names a dry run generated (+ their (0) variants); atoms also '
+                                     'renamed to format-hostile strings ({p}, %(q)s, {0}, p{, }%s)', 'F': ['None', '[set()]', '[{first state}]'],
             'histories': ['call, clear result, call', 'call, add foreign object, call',
                           'call, discard a member, call', 'call, call, mutate first, compare second, call']}
 
@@ -207,9 +221,78 @@ def run_group(k, naming, scheme, acc):
     acc.add('states', 1)
 
 
+HOSTILE = [None, {'p': '{p}', 'q': '%(q)s', 'zz': '{0}', 'fair': '{}'}, {'p': 'p{', 'q': '}%s', 'zz': '%d', 'fair': '{{'}]
+
+
+def rename(f, m):
+    if f[0] == 'ap':
+        return ('ap', m.get(f[1], f[1]))
+    if f[0] in ('t', 'f'):
+        return f
+    return (f[0],) + tuple(rename(x, m) for x in f[1:])
+
+
+def run_fresh(k, naming, acc):
+    """CTL* only: label the structure with exactly the fresh atom names the checker generates for the
+    quantified subformulas of the formula at hand (recorded on a dry run), so that its name-collision
+    loop runs for every one of them; atoms optionally renamed to format-hostile strings."""
+    import pyModelChecking.CTLS.model_checking as CMC
+    orig = CMC._get_a_new_atomic_proposition_for
+    sem = Sem(k)
+    for f in FORMS['CTLS']:
+        for m in HOSTILE:
+            f2 = f if m is None else rename(f, m)
+            nm = NAMINGS[naming]
+            names = [nm(i) for i in range(k.n)]
+
+            def labels(extra):
+                L = {}
+                for i in range(k.n):
+                    labs = [a if m is None else m.get(a, a) for a in k.lab[i]]
+                    L[names[i]] = labs + (list(extra) if i % 2 == 0 or len(extra) > 3 else list(extra)[:1])
+                return L
+            R = [(names[i], names[j]) for i in range(k.n) for j in k.succ[i]]
+            rec = []
+
+            def recording(kripke, formula, rec=rec):
+                r = orig(kripke, formula)
+                rec.append(r)
+                return r
+            CMC._get_a_new_atomic_proposition_for = recording
+            try:
+                call(lib.CTLS.modelcheck, Kripke(S=names, R=R, L=labels([])), lib.build(f2, lib.CTLS))
+            finally:
+                CMC._get_a_new_atomic_proposition_for = orig
+            gen = list(dict.fromkeys(rec))
+            if not gen:
+                continue
+            extra = gen + ['[%s(0)]' % g for g in gen]
+            Kl = Kripke(S=names, R=R, L=labels(extra))
+            snap = lib.snapshot_kripke(Kl)
+            res = call(lib.CTLS.modelcheck, Kl, lib.build(f2, lib.CTLS))
+            acc.ev(1, 1)
+            acc.add('transitions')
+            case = {'k': k.to_json(), 'naming': naming, 'labels': 'fresh-exact', 'logic': 'CTLS',
+                    'f': spaces.to_jsonable(f2), 'f_str': spaces.fstr(f2), 'F': 0, 'generated': gen[:4]}
+            if res[0] != 'ok':
+                acc.violation('exception', case, 'a set of states', res[1:])
+                continue
+            if not isinstance(res[1], set) or not set(res[1]) <= set(names):
+                acc.violation('non-state-in-result', case, None, sorted(map(repr, res[1])))
+                continue
+            inv = dict((repr(x), i) for i, x in enumerate(names))
+            got = frozenset(inv[repr(x)] for x in res[1])
+            if naming in PLAIN_NAMINGS and got != sem.sat(f):
+                acc.violation('wrong-answer', case, sorted(sem.sat(f)), sorted(got))
+            if lib.snapshot_kripke(Kl) != snap:
+                acc.violation('structure-modified', case)
+
+
 def run_shard(shard, tier, seed, acc):
     k = graphs()[shard[1]]
     naming = shard[2]
+    if naming != 'formula-like':
+        run_fresh(k, naming, acc)
     if k.n == 3 or naming not in ('mixed', 'formula-like', 'big-ints'):
         pass
     for scheme in sorted(EXTRA_LABELS):
@@ -226,7 +309,10 @@ def replay(art):
     c = art['case']
     k = spaces.K.from_json(c['k'])
     acc = Acc()
-    run_group(k, c['naming'], c['labels'], acc)
+    if c['labels'] == 'fresh-exact':
+        run_fresh(k, c['naming'], acc)
+    else:
+        run_group(k, c['naming'], c['labels'], acc)
     want = (c['logic'], c['f_str'], c['F'])
     hits = [v for v in acc.d['violations'] if (v['case']['logic'], v['case']['f_str'], v['case']['F']) == want]
     return {'violates': bool(hits) or acc.d['nviol'] > 0, 'detail': (hits or acc.d['violations'])[:1]}
